@@ -515,9 +515,18 @@ def run_property(pid, tier, only=None, seed=0, jobs=None):
 
 def run_e5(pid):
     """E5: release/acquire hand-off litmus in z3 from the MIR of /repo (see smt/e5_handoff.py)."""
-    sys.path.insert(0, os.path.join(VERIF, "smt"))
-    import e5_handoff
-    code, out = e5_handoff.main([])
+    # z3's Python bindings live in the tooling venv (python3-vt)
+    env = dict(os.environ)
+    env["VERIF_REPO"] = REPO
+    rc, txt, _ = sh(["python3-vt", os.path.join(VERIF, "smt", "e5_handoff.py"), "--json-file", os.path.join(BUILD, f"e5_{os.getpid()}.json")], env=env, timeout=1200)
+    code, out = (rc if rc in (0, 1, 2) else 2), None
+    jf = os.path.join(BUILD, f"e5_{os.getpid()}.json")
+    if os.path.exists(jf):
+        out = json.load(open(jf))
+        os.unlink(jf)
+    for line in txt.splitlines():
+        if line.startswith("E5 "):
+            log(f"[{pid}] {line}")
     viol = None
     if code == 1:
         rdir = os.path.join(VERIF, "replays", pid)
